@@ -214,6 +214,8 @@ class RunModel(Analysis):
         n = func.name
         if func.cls is not None and func.cls.name.startswith('_') and not func.is_async:
             return True         # methods of a small helper class private to the package
+        if func.cls is not None and func.cls.name.startswith('_') and n in ('__aenter__', '__aexit__'):
+            return True         # ... its context-manager protocol included
         private = n.startswith('_') and not (n.startswith('__') and n.endswith('__'))
         if sig is None:
             return private
